@@ -40,8 +40,8 @@ def run(rep, tier):
         plan.append(('full tree, two blocks of which the second is only partially filled (P-1 and 1 active steps), P=2..3,K<=2', [dict(c, nblocks=2, Tend=0.125 * n) for c in variants((2, 3), (1, 2), Ls=(1, 2), nsweeps=(1,)) if c['predict'] in (None, 'pfasst_burnin') for n in sorted({2 * c['P'] - 1, c['P'] + 1})], None))
         plan.append(('forced flag or convergence deviation (<=1), two blocks and a second run() on the same controller, P=2..3,K=2', [dict(c, **extra) for c in variants((2, 3), (2,), Ls=(1, 2), nsweeps=(1,), forced=True, conv_cost=1) if c['predict'] in (None, 'pfasst_burnin') for extra in (dict(nblocks=2), dict(second_run=0.125 * c['P']))], 1))
     else:
-        plan.append(('full tree, two blocks of which the second is only partially filled (every number of active steps), P=2..4,K<=2', [dict(c, nblocks=2, Tend=0.125 * n) for c in variants((2, 3, 4), (1, 2), Ls=(1, 2, 3), nsweeps=(1,)) for n in range(c['P'] + 1, 2 * c['P'])], None))
-        plan.append(('forced flags and convergence deviations (<=3 together), two blocks and a second run() on the same controller, P=2..3,K<=3', [dict(c, **extra) for c in variants((2, 3), (2, 3), Ls=(1, 2, 3), nsweeps=(1,), forced=True, conv_cost=1) for extra in (dict(nblocks=2), dict(second_run=0.125 * c['P']))], 3))
+        plan.append(('full tree, two blocks of which the second is only partially filled (every number of active steps), P=2..3,K<=2 (P=4: K=1)', [dict(c, nblocks=2, Tend=0.125 * n) for c in variants((2, 3), (1, 2), Ls=(1, 2, 3), nsweeps=(1,)) + variants((4,), (1,), Ls=(1, 2), nsweeps=(1,)) for n in range(c['P'] + 1, 2 * c['P'])], None))
+        plan.append(('forced flags and convergence deviations (<=2 together), two blocks and a second run() on the same controller, P=2..3,K=2', [dict(c, **extra) for c in variants((2, 3), (2,), Ls=(1, 2, 3), nsweeps=(1,), forced=True, conv_cost=1) for extra in (dict(nblocks=2), dict(second_run=0.125 * c['P']))], 2))
         plan.append(('full P<=3,K<=4 all variants', variants((1, 2, 3), (1, 2, 3, 4)), None))
         plan.append(('full P=4,K<=3 all variants', variants((4,), (1, 2, 3)), None))
         plan.append(('full P=4,K=4 six variants', [c for c in variants((4,), (4,), nsweeps=(1,)) if (c['L'] == 1) or (c['predict'] == 'pfasst_burnin' and not c['all_to_done'])], None))
